@@ -578,6 +578,6 @@ func CheckC14(c *C14Case, st *Stats) error {
 
 func init() {
 	Register("C14",
-		"lists and objects of 0-16 elements whose kind sequence is drawn from an alphabet of 1-4 of the seven kinds with repetition (several elements of one kind interleaved with others, kinds absent, empty container); element values are pairwise distinct and encode their position. For every kind X of {object, list, string, bool, int, float}: XSlice, ForEachX (callback log), MapXs (injective tag), FilterXs (predicates all/none/alternate/by value; identity for containers), ReduceXs with non-commutative folds, AllXs and AllNumeric, plus the untyped ForEach/ForEachValue/Map/MapValues/Filter/Reduce (index and value, in order, once); for objects ForEach/ForEachValue/ForEachX as multisets and Map/MapValues/MapXs storing under the same key and nothing else. The method table is compared with the interface by reflection (unknown view methods are reported as unclassified). Non-trivial = some kind occurs at least twice with an element of another kind between. Distinct = distinct FNV-64a hash of the case JSON.",
+		"lists and objects of 0-16 (occasionally 33-130) elements, built through drawn construction routes (Add, NewList, NewListFrom, NewListOf+Replace, Concat, SubList, typed-slice origin + Insert, grow-and-shrink; objects optionally from a map[string]int), whose kind sequence is drawn from an alphabet of 1-4 of the seven kinds with repetition (several elements of one kind interleaved with others, kinds absent, empty container); element values are pairwise distinct and encode their position (the first element of each scalar kind may be the zero value). For every kind X of {object, list, string, bool, int, float}: XSlice, ForEachX (callback log), MapXs (injective tag), FilterXs (predicates all/none/alternate/by value; identity for containers), ReduceXs with non-commutative folds, AllXs and AllNumeric, plus the untyped ForEach/ForEachValue/Map/MapValues/Filter/Reduce (index and value, in order, once); for objects ForEach/ForEachValue/ForEachX as multisets and Map/MapValues/MapXs storing under the same key and nothing else. The method table is compared with the interface by reflection (unknown view methods are reported as unclassified). Non-trivial = some kind occurs at least twice with an element of another kind between. Distinct = distinct FNV-64a hash of the case JSON.",
 		GenC14, CheckC14)
 }
